@@ -35,7 +35,8 @@ Create HintDb arenagen discriminated.
 
 Inductive field :=
 | FUsage | FMaxMem | FBucketCap | FBucketsLen      (* Arena: memory_usage, max_memory_usage, bucket_capacity.get(), buckets.len() *)
-| FIndex | FCapacity.                              (* Bucket: index, capacity.get() *)
+| FIndex | FCapacity                               (* Bucket: index, capacity.get() *)
+| FStringsLen.                                     (* Rodeo: strings.len() *)
 
 Inductive expr :=
 | EConst (n : N)
